@@ -7,6 +7,7 @@ mod c04;
 mod c07;
 mod c08;
 mod c10;
+mod c11;
 mod c12;
 mod pdu;
 mod c13;
@@ -37,6 +38,8 @@ fn main() {
         ("replay", "c10") => c10::replay(rest),
         ("record", "c10") => c10::record(rest),
         ("ctors", "c10") => c10::ctors(rest),
+        ("replay", "c11") => c11::replay(rest),
+        ("mutants", "c11") => c11::mutants(rest),
         ("replay", "c12") => c12::replay(rest),
         ("record", "c12") => c12::record(rest),
         ("replay", "c13") => c13::replay(rest),
